@@ -284,7 +284,10 @@ Definition get_body_string : bytes + outcome :=
     let mx := Z.of_nat (c_memfile cfg) in
     match content_length fr with                 (* cached: _body already evaluated it *)
     | None => inr (ServerFault FContentLength)
-    | Some cl =>
+    | Some cl0 =>
+      (* F37: content_length = -1 if self.chunked else self.content_length — a chunked
+         body is delimited by its framing, a Content-Length sent next to it is ignored *)
+      let cl := if Chunked.te_chunked (fr_te fr) then (-1)%Z else cl0 in
       if (mx <? cl)%Z then inr (raise_ n_BodySizeError)
       else
         let n := if (cl <? 0)%Z then (mx + 1)%Z else cl in
